@@ -304,7 +304,13 @@ def kind_term(e):
 
 
 def trace_term(events):
-    return "[" + ";\n ".join("mkEv %d %s (%s)" % (e["t"], actor_term(e["g"]), kind_term(e)) for e in events) + "]"
+    items = []
+    for e in events:
+        items.append("mkEv %d %s (%s)" % (e["t"], actor_term(e["g"]), kind_term(e)))
+        if e["kind"] == "issue" and len(e["args"]) >= 6:
+            a = e["args"]
+            items.append("mkEv %d %s (KParams %d %d %d %d)" % (e["t"], actor_term(e["g"]), rid(a[0]), a[3], a[4], a[5]))
+    return "[" + ";\n ".join(items) + "]"
 
 
 def run_scenarios(work, scenarios, files=None):
